@@ -147,10 +147,10 @@ def run_spec(spec, props=("C05",)):
             for s, m in mon.c05_full(out, nodes, tmin, I0, R0, sir):
                 A.add(V("C05", name, cls, s, m))
             a0 = [out.t(), out.S(), out.I()] + ([out.R()] if sir else [])
-            for s, m in mon.c05_arrays(a0, n, tmin, I0, R0, sir):
+            for s, m in mon.c05_arrays(a0, n, tmin, I0, R0, sir, G=G):
                 A.add(V("C05", name, cls, "summary_" + s, m))
         else:
-            for s, m in mon.c05_arrays(list(out), n, tmin, I0, R0, sir):
+            for s, m in mon.c05_arrays(list(out), n, tmin, I0, R0, sir, G=G):
                 A.add(V("C05", name, cls, s, m))
         # the caller's containers are not consumed / modified (also C19)
         A.sample = {"spec": spec, "row0": [float(np.asarray(a)[0]) for a in (a0 if full else out)]}
